@@ -625,6 +625,9 @@ fn gen_link(r: &mut Rng, out: &mut Out, thorough: bool) -> (String, Vec<(String,
             }
         }
     }
+    if g.n_tx >= 520 {
+        g.out.stat("link_cases_with_520_or_more_segments", 1);
+    }
     let nt = g.n_msg >= 1 && g.n_tx >= 4;
     (kind, g.ops, nt)
 }
@@ -646,7 +649,7 @@ pub fn gen(a: &Args) -> String {
     let mut r = Rng::new(a.seed);
     let mut out = Out::default();
     out.buf.push_str("#rule kind h: one real Btp end (responder or initiator, strict/relaxed MTU, various GATT MTUs) fed by a generated hostile peer: noise before the handshake, handshake requests/responses with boundary mtu/window values and mutations, then nearly valid data/ack segments built from the end's real state (right/wrong sequence number, valid/stale/bogus acknowledgement, single- and multi-segment SDUs with right/wrong lengths and flags, window overrun, repeated handshakes), interleaved with send/poll/fetch/tick; kind l: two real Btp ends joined by FIFO queues under a random schedule of send/poll/deliver/fetch/tick with message lengths 0..1233 around the segment size, six scheduler profiles incl. long runs (sequence wrap) and slow applications (withheld acks, ack timers); non-trivial = (h) at least one segment accepted and one refused, (l) at least one message fetched and four segments sent; distinct = by operation list\n");
-    let n_cases = if a.thorough { 12000 } else { 1500 };
+    let n_cases = if a.thorough { 9000 } else { 3000 };
     for id in 0..n_cases {
         let mut cr = r.fork();
         let (kind, ops, nt) = if cr.chance(1, 2) {
